@@ -41,10 +41,59 @@ theorem doc1_loads : summary (loadJson K demoTS' 0 0 true false [] doc1) =
 
 theorem doc1_nox : ∀ j ∈ doc1.fss, ∀ p ∈ j.feats, p.1 ≠ "@xmiID" := by decide +kernel
 
-/-- a second sofa element with the name of an existing view: its sofaNum (7) is ignored, the generator ends below it -/
+/-- Boolean checker for `SofaNamesDistinct` -/
+def sofaNamesDistinctB : List JFs → Bool
+  | [] => true
+  | a :: rest =>
+    rest.all (fun b => !(a.ty == SOFA && b.ty == SOFA) || sofaIdOf a != sofaIdOf b ||
+      sofaIdOf a == some Cas.INITIAL_VIEW) && sofaNamesDistinctB rest
+
+theorem sofaNamesDistinctB_sound (l : List JFs) (h : sofaNamesDistinctB l = true) : SofaNamesDistinct l := by
+  induction l with
+  | nil => exact List.Pairwise.nil
+  | cons a rest ih =>
+    rw [sofaNamesDistinctB, Bool.and_eq_true] at h
+    refine List.pairwise_cons.mpr ⟨?_, ih h.2⟩
+    intro b hb ha hbt n hna hnb
+    have := List.all_eq_true.mp h.1 b hb
+    simp only [ha, hbt, hna, hnb, beq_self_eq_true, Bool.and_self, Bool.not_true, Bool.false_or, bne_self_eq_false,
+      beq_iff_eq, Option.some.injEq] at this
+    exact this
+
+theorem doc1_distinct : SofaNamesDistinct doc1.fss := sofaNamesDistinctB_sound _ (by decide +kernel)
+
+/-- a second sofa element with the name of an existing view (other than the initial one) is applied to that view, which
+    keeps its sofa id and sofaNum (`cas.get_view` in `_get_or_create_view`): the id (3) and the sofaNum (7) of the element
+    are ignored, both generators end at or below them (Python: the same; a structure added next gets id 3) -/
 def docDup : JDoc := { types := none, fss := [sofaJ 1 1 "_InitialView", sofaJ 2 2 "v", sofaJ 3 7 "v"], views := [] }
 theorem docDup_loads : summary (loadJson K demoTS' 0 0 false false [] docDup) =
-    some ⟨4, 3, [("_InitialView", 1, 1), ("v", 3, 2)], []⟩ := by decide +kernel
+    some ⟨3, 3, [("_InitialView", 1, 1), ("v", 2, 2)], []⟩ := by decide +kernel
+
+/-- `docDup` is why the bound on the ids of the sofa elements needs `SofaNamesDistinct`: the document has an element with
+    id 3 and the generator restarts at 3 (no loaded structure or sofa carries id 3: the element was merged into sofa 2) -/
+theorem docDup_not_below : ∃ ld, loadJson K demoTS' 0 0 false false [] docDup = .ok ld ∧
+    ∃ j ∈ docDup.fss, j.id = some 3 ∧ ¬ (3 < ld.cas.nextXid) := by
+  cases h : loadJson K demoTS' 0 0 false false [] docDup with
+  | error e =>
+    have := docDup_loads
+    rw [h] at this
+    cases this
+  | ok ld =>
+    have := docDup_loads
+    rw [h] at this
+    simp only [summary, Option.some.injEq, Summary.mk.injEq] at this
+    exact ⟨ld, rfl, sofaJ 3 7 "v", by simp [docDup], rfl, by rw [this.1]; decide⟩
+
+theorem docDup_not_distinct : ¬ SofaNamesDistinct docDup.fss := by
+  intro h
+  have h1 := (List.pairwise_cons.mp (List.pairwise_cons.mp h).2).1 (sofaJ 3 7 "v") (by simp)
+    rfl rfl "v" (by decide +kernel) (by decide +kernel)
+  exact absurd h1 (by decide)
+
+/-- a second sofa element for the *initial* view replaces its sofa id and sofaNum (ids 1 and 5 are both registered) -/
+def docDupInit : JDoc := { types := none, fss := [sofaJ 1 1 "_InitialView", sofaJ 5 4 "_InitialView"], views := [] }
+theorem docDupInit_loads : summary (loadJson K demoTS' 0 0 false false [] docDupInit) =
+    some ⟨6, 5, [("_InitialView", 5, 4)], []⟩ := by decide +kernel
 
 /-- a view that is only named in `%VIEWS` is created in the views pass and consumes an id and a sofaNum -/
 def docView : JDoc :=
